@@ -759,8 +759,7 @@ func (r *vC13Run) step(step map[string]interface{}) vC13Event {
 				if timedOut {
 					r.t.Fatalf("INCONCLUSIVE: behaviour %d: resume timed out: %v", r.id, st.Message())
 				}
-				obs.Err = "refused:" + st.Message()
-				return
+				r.t.Fatalf("INCONCLUSIVE: behaviour %d: resume refused: %v", r.id, st.Message())
 			}
 			idx := ms.getRaft().AppliedIndex()
 			deadline := time.Now().Add(vC13Deadline)
@@ -785,7 +784,7 @@ func (r *vC13Run) step(step map[string]interface{}) vC13Event {
 // metadataAPI.electNewPartitionLeader (Raft operation CHANGE_LEADER applied on both
 // servers); returns when both servers run in their new roles.
 func (r *vC13Run) metaLeader() *Server {
-	deadline := time.Now().Add(vC13Deadline)
+	deadline := time.Now().Add(3 * vC13Deadline)
 	for {
 		for _, s := range r.all {
 			if s.IsLeader() {
@@ -872,8 +871,9 @@ func (r *vC13Run) elect(obs *vC13Obs) {
 		if ctx.Err() != nil {
 			r.t.Fatalf("INCONCLUSIVE: behaviour %d: election timed out: %v", r.id, st.Message())
 		}
-		obs.Err = "refused:" + st.Message()
-		return
+		// a healthy cluster with both replicas in the ISR does not refuse: the Raft leadership
+		// was lost on the way (loaded machine) - not an observation about group subscriptions
+		r.t.Fatalf("INCONCLUSIVE: behaviour %d: election refused: %v", r.id, st.Message())
 	}
 	next := "L"
 	if cur == "L" {
